@@ -6,9 +6,16 @@ import vlib
 def run(tier, seed, replay=None):
     ck = vlib.Check("C05", tier, seed, "model_checking")
     binary = vlib.build_harness()
-    c = dict(Ids='{"P","X"}', Signers='{"P","S"}', MaxEps=1 if tier == "quick" else 2, FIXED=True, EXPORT=True)
+    c = dict(Ids='{"P","X"}', Signers='{"P","S"}', MaxEps=1 if tier == "quick" else 2, FIXED=True, EXPORT=True, SLIM=False)
     r = vlib.tlc("AdSignature", ("c05.cfg", vlib.cfg_text(c, ["Agree", "ReturnsSigner", "ExportCase"])), timeout=3000, tag="c05")
     ck.add_tlc("AdSignature", r, "every ad shape x signer x key assignment x single mutation: Verify(Mutate(Sign)) = declarative outcome")
+    # lists of two (quick) / three (thorough) extended providers on one fixed advertisement body: the main provider next to others
+    r2 = vlib.tlc("AdSignature", ("c05s.cfg", vlib.cfg_text(dict(c, SLIM=True, MaxEps=2 if tier == "quick" else 3), ["Agree", "ReturnsSigner", "ExportCase"])),
+                  timeout=3000, tag="c05s")
+    ck.add_tlc("AdSignature/pairs", r2, "lists of exactly 2 (3) extended providers, every identity and key assignment, every single mutation")
+    with open(os.path.join(r.workdir, "c05_cases.ndjson"), "a") as f:
+        f.write(open(os.path.join(r2.workdir, "c05_cases.ndjson")).read())
+    shutil.rmtree(r2.workdir, ignore_errors=True)
     p = vlib.tlc("AdSignature", ("c05p.cfg", vlib.cfg_text(dict(c, FIXED=False, EXPORT=False, MaxEps=1), ["Agree"])), workers=4, timeout=900, tag="c05p")
     ck.cov["tlc_runs"].append({"name": "pinned VerifySignature (FIXED=FALSE) must violate Agree", "violated": p.violated})
     if p.violated != "Agree":
